@@ -1,5 +1,6 @@
 """C06 - totals conserve money: each transaction is counted once, in exactly one bucket."""
 import time
+from engine.ob import REPO_SRC  # noqa: E402
 from engine.ob import Obligation, post
 
 LEVEL = 'other'
@@ -20,7 +21,7 @@ STUBS = ['(2) format(<symbolic number>, spec) returns "<num>" (calc_formula text
 TRUSTED = ['engine/smt/symexec.py translator (validated in C13)']
 ASSUMPTIONS = ['amounts are exact reals in the accumulation obligations, finite and |amount| < 1e9 (C05 guarantees finite amounts)', 'tags are ASCII strings']
 
-PY = '/repo/src/tally/classification.py'
+PY = REPO_SRC + '/tally/classification.py'
 KEYS = ['income', 'investment', 'transfer_in', 'transfer_out', 'spending', 'credits']
 
 
@@ -102,7 +103,7 @@ class BucketSpec:
         import importlib
         import math
         import sys
-        sys.path.insert(0, '/repo/src')
+        sys.path.insert(0, REPO_SRC)
         cl = importlib.import_module('tally.classification')
 
         def same(x, y):
